@@ -755,6 +755,7 @@ func ruleIndexReadsInsideArms(rule string) func(*Ctx) {
 			n, ok := tv.Type.(*types.Named)
 			return ok && n.Obj().Name() == "MetadataPersister" && n.Obj().Pkg() != nil && strings.HasSuffix(n.Obj().Pkg().Path(), "pkg/config")
 		}
+		tables := dispatchTablesIn(f)
 		n := 0
 		for _, cs := range f.calls {
 			if !isPersisterCall(cs.Call) {
@@ -762,12 +763,15 @@ func ruleIndexReadsInsideArms(rule string) func(*Ctx) {
 			}
 			n++
 			inArm := false
-			ast.Inspect(f.Body(), func(m ast.Node) bool {
-				if cc, ok := m.(*ast.CaseClause); ok && containsNode(cc, cs.Call) {
-					inArm = true
+			for _, dt := range tables {
+				for _, arm := range dt.t.Arms {
+					for _, st := range arm.Body {
+						if containsNode(st, cs.Call) {
+							inArm = true
+						}
+					}
 				}
-				return !inArm
-			})
+			}
 			c.verdictIf(inArm, rule, f, fmt.Sprintf("persister call#%d %s", n, exprString(cs.Call.Fun)), cs.Call.Pos(), "the index is consulted only inside an action arm",
 				"indexHeader consults the index ("+exprString(cs.Call.Fun)+") before the record's action is dispatched: how a record is read (its name, its size) then depends on rows created by later records, and replaying the tape over an index that already reflects it no longer converges")
 		}
